@@ -72,3 +72,30 @@ func VerifValidAccount(k *Keeper, a string) bool {
 	_, err := k.addressCodec.StringToBytes(a)
 	return err == nil
 }
+
+func VerifSetupStd() (*Keeper, sdk.Context) {
+	stdBounds()
+	k, _, ctx := setup()
+	return k, ctx
+}
+func VerifSymDeposit(name string) *types.MsgFinalizeTokenDeposit {
+	return &types.MsgFinalizeTokenDeposit{
+		Sender: verifSymStr(name + ".sender"), From: verifSymStr(name + ".from"), To: verifSymStr(name + ".to"),
+		Amount:   sdk.Coin{Denom: verifSymStr(name + ".denom"), Amount: verifSymInt(name + ".amount")},
+		Sequence: verifSymU64(name + ".sequence"), Height: verifSymU64(name + ".height"), BaseDenom: verifSymStr(name + ".baseDenom"),
+	}
+}
+func VerifIsExecutor(ctx sdk.Context, k *Keeper, s string) bool { return k.isExecutor(ctx, s) }
+func VerifNextL1(ctx sdk.Context, k *Keeper) uint64              { return k.nextL1(ctx) }
+func VerifValidDeposit(k *Keeper, m *types.MsgFinalizeTokenDeposit) bool {
+	return m.Validate(k.authKeeper.AddressCodec()) == nil
+}
+func VerifSymBool(name string) bool { return verifSymBool(name) }
+
+func VerifSetupMin() (*Keeper, sdk.Context) {
+	verifConfig("len:FeeWhitelist", 0)
+	verifConfig("len:MinGasPrices", 0)
+	verifConfig("len:BridgeExecutors", 1)
+	k, _, ctx := setup()
+	return k, ctx
+}
